@@ -16,6 +16,20 @@ same values; the reference reads them back with read_signal and cross-checks the
 what was written.  Utterances for which the reference pipeline itself raises (e.g.
 Standardize on an empty matrix) are outside the property's domain: they are left out of
 the input set and counted as skipped.
+
+Three further lattices use the same run_case / reference pipeline:
+
+  seed     tool x computer x dither list x post x --seed in {0, 1, 7, 2**31-1}: same seed twice
+           (dirty global generators) and as JSON / YAML files => identical bytes
+  framing  tool x frame style (causal, centered, centered + kaldi_shift) x parity of the frame
+           length x parity of the frame shift (STFT and SI) x post; one run holds an utterance of
+           EVERY length from 0 (kaldi tool: 1) to 2L+2S samples
+  options  boundary values of the options and the id alphabet: --channel (absent, -1, 0, 1),
+           --file-prefix / --file-suffix (absent, non-empty, EMPTY), --preprocess / --postprocess
+           (absent, an empty list), --min-duration (absent, 0, between
+           two durations, exactly one utterance's duration), a map file whose last line has no
+           newline, and utterance ids that are prefixes / suffixes / substrings of one another in both
+           orders, look like numbers, differ in case only, or contain the default suffix
 """
 import itertools
 import json
@@ -43,6 +57,12 @@ ASSUMPTIONS = [
     "the torch port open there)",
     "dither cannot be compared with a reference (different generators): only same --seed => "
     "identical bytes and syntax independence are demanded for it",
+    "--min-duration 0.125 s against utterances of 124 / 125 / 126 samples at 1000 Hz: 0.125 is exact in "
+    "float32 (the Kaldi reader's duration) and float64, so 'duration < min' is decided identically; the "
+    "harness refuses any other near-tie",
+    "utterance ids: printable ASCII without white space (the only restriction of '<utt_id> <path>' "
+    "lines and of Kaldi tables); the Kaldi wave reader refuses a wav without samples, so the length "
+    "sweep of the kaldi tool starts at 1",
     "order of two Preemphasize filters is unobservable (they commute); order is made observable for "
     "the kaldi tool by a harness-defined non-linear PreProcessor and for post-processors by "
     "[deltas, stack]",
@@ -68,6 +88,36 @@ COMPUTERS = {
     "stft_fbank_e": dict(kind="stft", bank="fbank", L=8, S=3, style="centered", kaldi=False,
                          window="hamming", pad=True, log=True, power=True, energy=True),
 }
+
+# framing lattice: frame style (incl. kaldi_shift) x parity of frame length x parity of frame shift.
+# validity: kaldi_shift exists only for centered STFT frames; SI computers have no frame length
+FRAME_STYLES = (("causal", False), ("centered", False), ("centered", True))
+FRAME_LENGTHS = {"quick": (6, 7), "thorough": (5, 6, 7, 8)}
+FRAME_SHIFTS = {"quick": (2, 3), "thorough": (2, 3, 4, 5)}
+
+
+def framing_computers(tier):
+    """registers the computers of the framing lattice in COMPUTERS; -> their names, in lattice order"""
+    names = []
+    for style, kaldi in FRAME_STYLES:
+        for L in FRAME_LENGTHS[tier]:
+            for S in FRAME_SHIFTS[tier]:
+                n = "fr_stft_%s%s_L%d_S%d" % (style, "_kaldi" if kaldi else "", L, S)
+                COMPUTERS[n] = dict(kind="stft", bank="fbank", L=L, S=S, style=style, kaldi=kaldi,
+                                    window="hamming", pad=True, log=True, power=False, energy=True)
+                names.append(n)
+    for style, kaldi in FRAME_STYLES:
+        if kaldi:
+            continue
+        for S in FRAME_SHIFTS[tier]:
+            n = "fr_si_%s_S%d" % (style, S)
+            COMPUTERS[n] = dict(kind="si", bank="gabor", S=S, style=style, window="hamming", pad=True,
+                                log=True, power=False, energy=True)
+            names.append(n)
+    return names
+
+
+framing_computers("thorough")       # a replay may name any of them
 
 PRES = {
     "none": [],
@@ -249,11 +299,35 @@ def samples(seed, n, k):
     return np.clip(x, -32000, 32000).astype(np.int16)
 
 
-def utterances(setname, comp_name, seed):
+# ids with prefix / suffix / substring relations in both orders, ids that look like numbers (and would
+# collide if compared as numbers), ids that differ in case only, ids that contain the default file suffix
+# or an option-like prefix.  The tools' documented formats only forbid white space inside an id.
+ID_ALPHABET = ("10", "1", "01", "1.0", "1e1", "a", "A", "a.pt", "p_a", "a_b-c", "ab", "b", "-1")
+EDGE_LENGTHS = (124, 125, 126)     # 125 samples at 1000 Hz = 0.125 s, exact in float32 and float64
+
+
+def utterances(setname, comp_name, seed, tool=None):
     """-> list of (utt id, int16 array (S,) or (C, S), rate, note)"""
     c = COMPUTERS.get(comp_name)
     L = c.get("L", 6) if c else 6
     short = max(L // 2, 1) if (c and c["kind"] == "stft") else 2
+    if setname == "ids":
+        return [(u, samples(seed, 2 * L + 1 + k, 20 + k), RATE, "normal") for k, u in enumerate(ID_ALPHABET)]
+    if setname == "edge":
+        return [("e%d" % n, samples(seed, n, 40 + k), RATE, "normal") for k, n in enumerate(EDGE_LENGTHS)] \
+            + [("eo", samples(seed, 1, 44), RATE, "one")]
+    if setname == "sweep":
+        # every length from (almost) nothing to a few frames: every residue of the length modulo the
+        # shift, 0 / 1 / 2 / ... frames.  The Kaldi wave reader refuses an empty wav; the torch port
+        # of the STFT computer is left open by C14 for L//2+1 <= N < L.
+        S = c["S"] if c else 2
+        top = 2 * L + 2 * S
+        out = []
+        for n in range(1 if tool == "kaldi" else 0, top + 1):
+            if tool == "torch" and c and c["kind"] == "stft" and L // 2 + 1 <= n < L:
+                continue
+            out.append(("n%02d" % n, samples(seed, n, 50 + n), RATE, "normal" if n >= L else "short"))
+        return out
     if setname in ("mono", "mindur", "rate"):
         u = [("ua", samples(seed, 3 * L + 5, 0), RATE, "normal"),
              ("ub", samples(seed, 2 * L + 2, 1), RATE, "normal"),
@@ -395,13 +469,19 @@ def _comp_tags(comp_name):
     if comp_name == "none":
         return dict(comp="none", bank_real=None, energy=False)
     c = COMPUTERS[comp_name]
-    return dict(comp=c["kind"], bank_real=c["bank"] in ("tri", "fbank"), energy=bool(c["energy"]))
+    t = dict(comp=c["kind"], bank_real=c["bank"] in ("tri", "fbank"), energy=bool(c["energy"]))
+    if comp_name.startswith("fr_"):     # framing lattice: the structural coordinates of the point
+        t.update(style=c["style"], kaldi_shift=bool(c.get("kaldi")), L_even=c.get("L", 1) % 2 == 0,
+                 S_even=c["S"] % 2 == 0)
+    return t
 
 
 # ------------------------------------------------------------------ one tool run
 
 def run_case(case, seed, keep=None):
-    """case: dict(tool, computer, pre, post, container, set, syntax[, dither_seed])
+    """case: dict(tool, computer, pre, post, container, set, syntax[, dither, seed_opt, rng,
+    min_dur="<text of --min-duration>", channel_opt="<text of --channel>", naming=[prefix, suffix],
+    map_style="plain"|"nofinalnl", empty_lists=bool])
     -> dict(viol=[...], stored={utt: array}, skipped=n, nontrivial=bool, obs=...)"""
     from pydrobert.speech import util
 
@@ -411,9 +491,19 @@ def run_case(case, seed, keep=None):
     setname, container, syntax = case["set"], case["container"], case["syntax"]
     _ensure_custom()
     comp = None if comp_name == "none" else cfg.make_computer(COMPUTERS[comp_name])
-    utts = utterances(setname, comp_name, seed)
+    utts = utterances(setname, comp_name, seed, tool)
     channel = {"ch0": 0, "ch1": 1}.get(setname, -1)
-    min_dur = 0.0015 if setname == "mindur" else None
+    min_dur_text = case.get("min_dur", "0.0015" if setname == "mindur" else None)
+    min_dur = None if min_dur_text is None else float(min_dur_text)
+    naming = case.get("naming")
+    prefix, suffix = (naming[0], naming[1]) if naming is not None else ("", ".pt")
+    if min_dur:
+        for _u, x, rate, _n in utts:
+            dur = x.shape[-1] / float(rate)
+            if dur != min_dur and abs(dur - min_dur) < 1e-4 * min_dur or \
+                    (dur == min_dur and float(np.float32(dur)) != dur):
+                raise core.HarnessError("duration %r too close to --min-duration %r for a float32 "
+                                        "reader" % (dur, min_dur))
     tags0 = dict(tool=tool)
     tags0.update(_comp_tags(comp_name))
     viol, obs = [], []
@@ -475,9 +565,11 @@ def run_case(case, seed, keep=None):
                 rspec = "ark:" + os.path.join(d, "wav.ark")
         else:
             paths = write_inputs(ind, container, utts)
+            text = "".join("%s %s\n" % (u, p) for u, p in paths)
+            if case.get("map_style") == "nofinalnl":
+                text = text[:-1]
             with open(os.path.join(d, "map"), "w") as f:
-                for u, p in paths:
-                    f.write("%s %s\n" % (u, p))
+                f.write(text)
         # ---- the reference's view of the stored signal: read_signal must return what was written
         for (u, p), (_, x, rate, _) in zip(paths, utts):
             r = computers.call(lambda: util.read_signal(p, dtype=np.float64, key=u))
@@ -496,22 +588,30 @@ def run_case(case, seed, keep=None):
         pj = list(case["dither"]) if case.get("dither") is not None else pre_json(pre_spec)
         if pj:
             opts += ["--preprocess", config_arg(pj, syntax, d, "pre")]
+        elif case.get("empty_lists"):
+            opts += ["--preprocess", config_arg([], syntax, d, "pre")]     # an empty list, spelled out
         if post_spec:
             opts += ["--postprocess", config_arg(post_json(post_spec), syntax, d, "post")]
+        elif case.get("empty_lists"):
+            opts += ["--postprocess", config_arg([], syntax, d, "post")]
         if channel >= 0:
             opts += ["--channel", str(channel)]
+        elif case.get("channel_opt") is not None:
+            opts += ["--channel", str(case["channel_opt"])]    # the default, spelled out
         if case.get("seed_opt") is not None:
             opts += ["--seed", str(case["seed_opt"])]
         if case.get("rng") is not None:   # dirty the global generators differently per run
             np.random.seed(case["rng"])
             torch.manual_seed(case["rng"])
         if tool == "kaldi":
-            if min_dur is not None:
-                opts += ["--min-duration", str(min_dur)]
+            if min_dur_text is not None:
+                opts += ["--min-duration", min_dur_text]
             out_ark = os.path.join(d, "feats.ark")
             args = [rspec, "ark:" + out_ark] + cargs + opts
         else:
             out_dir = os.path.join(d, "out")
+            if naming is not None:
+                opts += ["--file-prefix=" + prefix, "--file-suffix=" + suffix]
             args = [os.path.join(d, "map")] + cargs + [out_dir] + opts
         r = call_tool(tool, args)
         case_out = dict(case)
@@ -542,12 +642,14 @@ def run_case(case, seed, keep=None):
             ids = []
             names = sorted(os.listdir(out_dir)) if os.path.isdir(out_dir) else []
             for nm in names:
-                if not nm.endswith(".pt"):
-                    ids.append(nm)
+                if not (nm.startswith(prefix) and nm.endswith(suffix)
+                        and len(nm) >= len(prefix) + len(suffix)):
+                    ids.append(nm)           # not <prefix><id><suffix>: reported as an extra id
                     continue
-                ids.append(nm[:-3])
+                u = nm[len(prefix):len(nm) - len(suffix)]
+                ids.append(u)
                 t = torch.load(os.path.join(out_dir, nm))
-                stored[nm[:-3]] = t.numpy() if hasattr(t, "numpy") else np.asarray(t)
+                stored[u] = t.numpy() if hasattr(t, "numpy") else np.asarray(t)
                 if t.dtype != torch.float32:
                     viol.append(core.violation(dict(tags0, what="dtype"),
                                                "%s stored as %s, FloatTensor documented" % (nm, t.dtype),
@@ -661,6 +763,66 @@ def _pipeline_replay(case, seed):
     return core.result(r["viol"], nontrivial=r["nontrivial"], obs=r["obs"])
 
 
+# ------------------------------------------------------------------ sub-check: framing
+
+def _single(case, seed):
+    r = run_case(case, seed)
+    o = r["obs"]
+    return r, set(o if isinstance(o, list) else [o])
+
+
+def _framing(pt, seed):
+    tool, comp_name, post = pt
+    case = dict(tool=tool, computer=comp_name, pre="none", post=post,
+                container="npy" if tool == "torch" else "scp", set="sweep", syntax="inline")
+    r, obs = _single(case, seed)
+    c = COMPUTERS[comp_name]
+    open_zone = len(range(c["L"] // 2 + 1, c["L"])) if (tool == "torch" and c["kind"] == "stft") else 0
+    frames = sorted(set(v.shape[0] for v in r["stored"].values()))
+    return core.result(r["viol"], evals=1, nontrivial=r["nontrivial"] and len(frames) > 2,
+                       obs=sorted(obs) + [c["style"], bool(c.get("kaldi")), c.get("L", 0) % 2, c["S"] % 2],
+                       skipped=r["skipped"] + open_zone,
+                       sample=dict(case, computer_config=c, frame_counts_seen=frames))
+
+
+def _case_replay(case, seed):
+    r = run_case(case, seed)
+    return core.result(r["viol"], nontrivial=r["nontrivial"], obs=r["obs"])
+
+
+# ------------------------------------------------------------------ sub-check: options / ids
+
+NAMINGS = {
+    "default": None,                 # no --file-prefix / --file-suffix given
+    "both": ["p_", ".feat"],
+    "empty": ["", ""],               # both options have an empty value with a meaning
+    "prefix_only": ["a.", ""],
+}
+MIN_DURS = (None, "0", "0.0015", "0.125")
+
+
+def _options(pt, seed):
+    """pt = ("torch", computer, container, set, empty_lists, naming, map_style) |
+            ("kaldi", computer, container, set, empty_lists, min_dur)"""
+    tool, comp_name, container, setname = pt[:4]
+    case = dict(tool=tool, computer=comp_name, pre="none", post="none", container=container,
+                set=setname, syntax="inline")
+    if pt[4]:
+        case["empty_lists"] = True
+    pt = pt[:4] + pt[5:]
+    if setname == "mono_explicit":
+        case.update(set="mono", channel_opt="-1")
+    if tool == "torch":
+        if NAMINGS[pt[4]] is not None:
+            case["naming"] = NAMINGS[pt[4]]
+        case["map_style"] = pt[5]
+    elif pt[4] is not None:
+        case["min_dur"] = pt[4]
+    r, obs = _single(case, seed)
+    return core.result(r["viol"], evals=1, nontrivial=r["nontrivial"],
+                       obs=sorted(obs) + [len(r["stored"])], skipped=r["skipped"], sample=case)
+
+
 # ------------------------------------------------------------------ sub-check: seed / dither
 
 DITHERS = {
@@ -670,14 +832,19 @@ DITHERS = {
 }
 
 
+SEED_VALUES = (0, 1, 7, 2 ** 31 - 1)     # 0 is falsy; 2**31-1 is the largest seed the tools draw themselves
+
+
 def _seed_case(pt, seed):
-    tool, comp_name, dname, post, container = pt
+    tool, comp_name, dname, post, container = pt[:5]
+    sv = pt[5] if len(pt) > 5 else 7
+    other = sv + 1 if sv < 2 ** 31 - 1 else sv - 1
     viol = []
     base = dict(tool=tool, computer=comp_name, pre="none", post=post, container=container, set="mono",
-                dither=DITHERS[dname])
+                dither=DITHERS[dname], seed_value=sv)
     outs = {}
-    runs = [("a", "inline", 7, 11), ("b", "inline", 7, 12), ("yaml", "yaml_file", 7, 13),
-            ("json", "json_file", 7, 14), ("other", "inline", 8, 11)]
+    runs = [("a", "inline", sv, 11), ("b", "inline", sv, 12), ("yaml", "yaml_file", sv, 13),
+            ("json", "json_file", sv, 14), ("other", "inline", other, 11)]
     for name, syntax, sd, rng in runs:
         keep = {}
         r = run_case(dict(base, syntax=syntax, seed_opt=sd, rng=rng), seed, keep=keep)
@@ -687,18 +854,18 @@ def _seed_case(pt, seed):
     tags = dict(tool=tool)
     if outs["a"][0] is None or outs["a"][0] != outs["b"][0]:
         viol.append(core.violation(
-            dict(tags, what="seed_not_reproducible"),
-            "two runs with --seed 7 (global generators left in different states) wrote different "
-            "bytes; ids %r / %r" % (sorted(outs["a"][1]), sorted(outs["b"][1])), case))
+            dict(tags, what="seed_not_reproducible", seed_is_zero=(sv == 0)),
+            "two runs with --seed %d (global generators left in different states) wrote different "
+            "bytes; ids %r / %r" % (sv, sorted(outs["a"][1]), sorted(outs["b"][1])), case))
     for s in ("yaml", "json"):
         if outs["a"][0] != outs[s][0]:
             viol.append(core.violation(
                 dict(tags, what="syntax_differs", syntax=s + "_file"),
-                "--seed 7 with the configuration as a %s file wrote different bytes than inline JSON" % s,
-                case))
+                "--seed %d with the configuration as a %s file wrote different bytes than inline JSON"
+                % (sv, s), case))
     changed = outs["a"][0] != outs["other"][0]
     return core.result(viol, evals=len(runs), nontrivial=changed,
-                       obs=(tool, comp_name, "seed_matters", changed,
+                       obs=(tool, comp_name, sv, "seed_matters", changed,
                             sorted((k, list(v.shape)) for k, v in outs["a"][1].items())),
                        sample=dict(tool=tool, computer=comp_name, pre=DITHERS[dname], post=POSTS[post],
                                    container=container))
@@ -706,7 +873,8 @@ def _seed_case(pt, seed):
 
 def _seed_replay(case, seed):
     pt = (case["tool"], case["computer"],
-          [k for k, v in DITHERS.items() if v == case["dither"]][0], case["post"], case["container"])
+          [k for k, v in DITHERS.items() if v == case["dither"]][0], case["post"], case["container"],
+          case.get("seed_value", 7))
     return _seed_case(pt, seed)
 
 
@@ -731,11 +899,28 @@ def subchecks(tier, seed, only=None):
             pts.append(("kaldi", comp_name, pre, post, cont))
     spts = []
     for comp_name in ["none"] + comps:
-        for dn, post in itertools.product(DITHERS, ("none", "deltas_stack")):
-            spts.append(("torch", comp_name, dn, post, "npy"))
+        for dn, post, sv in itertools.product(DITHERS, ("none", "deltas_stack"), SEED_VALUES):
+            spts.append(("torch", comp_name, dn, post, "npy", sv))
     for comp_name in comps:
-        for dn, post in itertools.product(DITHERS, ("none", "deltas_stack")):
-            spts.append(("kaldi", comp_name, dn, post, "scp"))
+        for dn, post, sv in itertools.product(DITHERS, ("none", "deltas_stack"), SEED_VALUES):
+            spts.append(("kaldi", comp_name, dn, post, "scp", sv))
+    # framing: tool x (frame style x kaldi_shift x parity of L x parity of S, STFT and SI) x post
+    fposts = ["none", "deltas_stack", "standardize"]
+    tier_ = "quick" if quick else "thorough"
+    fpts = [(tool, cn, post) for tool, cn, post in
+            itertools.product(("torch", "kaldi"), framing_computers(tier_), fposts)]
+    # options / ids
+    ocomps = ["none", "stft_fbank"] if quick else ["none"] + comps
+    opts_ = []
+    for comp_name, cont, setname, el, naming, ms in itertools.product(
+            ocomps, TORCH_CONTAINERS, ("mono", "mono_explicit", "ids", "ch0", "ch1"), (False, True),
+            NAMINGS, ("plain", "nofinalnl")):
+        if setname in ("ch0", "ch1") and cont not in ARRAY_CONTAINERS:
+            continue         # validity: multi-channel inputs of the torch tool are (C, S) arrays
+        opts_.append(("torch", comp_name, cont, setname, el, naming, ms))
+    for comp_name, cont, setname, el, md in itertools.product(
+            ocomps[1:], KALDI_CONTAINERS, ("mono", "ids", "ch0", "ch1", "edge"), (False, True), MIN_DURS):
+        opts_.append(("kaldi", comp_name, cont, setname, el, md))
     axes = dict(
         tool=["torch", "kaldi"], computer=["none (torch tool only)"] + comps,
         computer_configs={k: COMPUTERS[k] for k in comps},
@@ -763,6 +948,34 @@ def subchecks(tier, seed, only=None):
             "seed", spts, lambda p: _seed_case(p, seed),
             "tool x computer x dither list x post: --seed 7 twice (different global RNG states) and as "
             "JSON/YAML files => identical bytes; non-trivial = --seed 8 changes the bytes",
-            axes=dict(dither=DITHERS, post=["none", "deltas_stack"]),
+            axes=dict(dither=DITHERS, post=["none", "deltas_stack"], seed_values=list(SEED_VALUES)),
             replay=lambda case: _seed_replay(case, seed)),
+        core.SubCheck(
+            "framing", fpts, lambda p: _framing(p, seed),
+            "tool x {causal, centered, centered+kaldi_shift} x frame length {even, odd} x frame shift "
+            "{even, odd} (STFT; SI: style x shift) x post; inner: one utterance of EVERY length 0 (kaldi: "
+            "1) .. 2L+2S in one run: every stored matrix allclose to the NumPy reference pipeline; "
+            "non-trivial = utterances with at least three different frame counts were stored",
+            axes=dict(tool=["torch", "kaldi"], frame_styles=[list(x) for x in FRAME_STYLES],
+                      frame_length=list(FRAME_LENGTHS[tier_]), frame_shift=list(FRAME_SHIFTS[tier_]),
+                      kinds=dict(stft="fbank bank, hamming, energy", si="gabor bank, hamming, energy"),
+                      post={k: POSTS[k] for k in fposts}, lengths="0 (kaldi tool: 1) .. 2L+2S (SI: L=6)",
+                      validity="kaldi_shift only for centered STFT; SI has no frame length; torch tool + "
+                               "STFT: lengths L//2+1 <= N < L left out (C14 leaves the port open there); "
+                               "utterances whose reference pipeline raises are left out (skipped)"),
+            replay=lambda case: _case_replay(case, seed)),
+        core.SubCheck(
+            "options", opts_, lambda p: _options(p, seed),
+            "boundary values of the command-line options and the id alphabet.  torch tool: computer x "
+            "container x utterance set {mono, mono with --channel -1 spelled out, ids, 2/3-channel with "
+            "--channel 0 / 1} x --preprocess / --postprocess {absent, '[]'} x file naming {default, prefix+suffix, both EMPTY, prefix only} x map file "
+            "{plain, last line without newline}; kaldi tool: computer x {scp, ark} x utterance set {mono, "
+            "ids, --channel 0, --channel 1, edge} x --preprocess / --postprocess {absent, '[]'} x --min-duration {absent, 0, 0.0015, 0.125 = exactly the "
+            "duration of one utterance}: exactly the expected ids are stored (as <prefix><id><suffix>), "
+            "each allclose to the reference pipeline; non-trivial = an utterance with >= 1 frame is expected",
+            axes=dict(ids=list(ID_ALPHABET), naming=NAMINGS, min_duration=list(MIN_DURS),
+                      empty_lists=[False, True],
+                      edge_lengths=list(EDGE_LENGTHS), computers=ocomps,
+                      validity="multi-channel sets only for array containers (torch tool)"),
+            replay=lambda case: _case_replay(case, seed)),
     ]
